@@ -36,7 +36,7 @@ class Ctl:
         self.trace_seq = []
 
     def env(self, **extra):
-        e = self.w.env(dict(GIT_AI_VERIF_SYNC_DIR=self.sync, GIT_AI_VERIF_SYNC_POINTS=POINTS))
+        e = self.w.env(dict(GIT_AI_VERIF_SYNC_DIR=self.sync, GIT_AI_VERIF_SYNC_POINTS=POINTS + getattr(self, "more_points", "")))
         e.update(extra)
         return e
 
@@ -283,6 +283,7 @@ def scenario(kind, choices, serial=None):
             wt = os.path.join(w.root, "wt2")
             w.git("worktree", "add", "-q", "-b", "other", wt, "main", plain=True)
             cmds = [(["cherry-pick", "srcA"], repo, True), (["cherry-pick", "srcB"], wt, True)]
+            c.more_points = ",rwscan."       # also park before every scan of the rewrite log (the post-hook looks its own Start event up there)
             probes = [(repo, "a.txt", "ai line of S1"), (wt, "b.txt", "ai line of S2")]
         if serial is not None:
             seq, opts = [("serial", list(serial))], []
